@@ -1,8 +1,27 @@
+ALL_MODES = [0, 1, 2, 3]
+_c01_common = dict(harness="C01_bottom_up.cpp", entries=["harness_c01"], units=CORE, unwind=26, checks="none", object_bits=13, witness_any=True,
+                   timeout={"quick": 900, "thorough": 2400}, mem_gb=6)
+_DELS = [OP_DEL_V, OP_DEL_E, OP_DEL_F, OP_DEL_C]
+_SWAPS = [OP_SWAP_V, OP_SWAP_E, OP_SWAP_F, OP_SWAP_C]
 PROPS["C01"] = dict(
   jobs=[
-    dict(name="c01-k1", harness="C01_bottom_up.cpp", entries=["harness_c01"], units=CORE, unwind=26, checks="none", object_bits=13,
-         shards={"quick": op_shards([B_TET], [0], [OP_DEL_E]), "thorough": []},
-         timeout=900, mem_gb=6,
-         bounds="K=1 operation; symbolic selector over the operation's argument tuples (8 per query), symbolic probe handles"),
+    dict(name="c01-k1", **_c01_common,
+         shards={"quick": op_shards([B_TET], ALL_MODES, _DELS) + op_shards([B_TET], [1], _SWAPS + [OP_ADD_E, OP_ADD_E_DUP, OP_ADD_V, OP_ADD_NV, OP_CLEAR, OP_BU_TOGGLE])
+                        + op_shards([B_LOWDIM], ALL_MODES, _DELS) + op_shards([B_LOWDIM], [0], [OP_SWAP_V, OP_SWAP_E, OP_ADD_E, OP_ADD_E_DUP, OP_BU_TOGGLE]),
+                 "thorough": op_shards([B_TET2_FACE, B_TET2_EDGE, B_TET2_VERTEX, B_TET3_RING, B_PRISM_PYR, B_TRI2], ALL_MODES, _DELS)
+                        + op_shards([B_TET2_FACE, B_TRI2], [1], _SWAPS + [OP_ADD_E, OP_BU_TOGGLE]) + op_shards([B_HEX], [0, 3], _DELS)},
+         bounds="K=1 operation from {delete_vertex/edge/face/cell, swap_*_indices, add_vertex, add_n_vertices, add_edge(dup on/off), clear, bottom-up off/on in every subset and order} "
+                "with every argument tuple of the base mesh (symbolic selector, 8 tuples per query), every (deferred x fast) mode for deletions; symbolic target probes (vertex, halfedge, halfface, cell); "
+                "bases quick: one tetrahedron, low-dimensional mesh (triangle + dangling edge + isolated vertex + duplicate edge); thorough adds two tets sharing face/edge/vertex, 3-tet ring, prism+pyramid, two triangles, one hexahedron"),
+    dict(name="c01-k2", **_c01_common,
+         shards={"quick": op2_shards([B_TET], [1, 3], OP_DEL_E, OP_GC, 0) + op2_shards([B_TET], [1, 3], OP_DEL_V, OP_GC, 0) + op2_shards([B_TET], [1], OP_DEL_F, OP_GC, 0)
+                        + op2_shards([B_LOWDIM], [1, 3], OP_DEL_V, OP_GC, 0) + op2_shards([B_LOWDIM], [1, 3], OP_DEL_E, OP_GC, 0),
+                 "thorough": [s for op1 in _DELS for s in op2_shards([B_TET, B_LOWDIM], [1, 3], op1, OP_GC, 0)]
+                        + [s for op1 in _DELS for op2 in (OP_ADD_E, OP_DEL_E, OP_DEL_V, OP_SWAP_E, OP_SWAP_V, OP_BU_TOGGLE) for s in op2_shards([B_TET], [0, 1], op1, op2, 1, fixed_range=[0, 2])]
+                        + [s for op1 in _SWAPS for op2 in _DELS for s in op2_shards([B_TET], [0, 3], op1, op2, 1, fixed_range=[1, 6])]
+                        + [s for op1 in _DELS for s in op2_shards([B_TET2_FACE], [1, 3], op1, OP_GC, 0)]},
+         bounds="K=2 operations: quick = every deletion followed by collect_garbage in the deferred modes; thorough adds deletion->{add_edge, delete, swap, bottom-up toggle}, swap->delete with a symbolic selector over the second operation's arguments"),
   ],
+  assumptions=["precondition assumed: operation arguments are live handles; meshes in which a halfface is used by two live cells are skipped by the oracle (outside the property)",
+               "the queried centre entity is enumerated in the harness; the compared target entity is a free symbolic handle"],
 )
